@@ -299,11 +299,11 @@ def run(ck, facts, tier, only=None):
     c20m.loader_rule(ck, facts, only={"calendars::calendar::NamedCal"})
     c16m.run(ck, facts, tier, only_types=r"^calendars::calendar::")
     # "a named calendar behaves like the explicit combination": each name must resolve to its own table (C07 R07.1 wiring; R07.2 incl. fed = nyc minus Good Friday)
-    if not getattr(ck, "_c06_c07_nested", False) and (ck._only is None or ck._only & {"R07.1", "R07.2"}):
+    if not getattr(ck, "_c06_c07_nested", False) and (ck._only is None or ck._only & {"R07.1", "R07.2", "R07.5"}):
         ck._c06_c07_nested = True
         try:
             from rules import c07 as c07m
-            with ck.restrict({"R07.1", "R07.2"}):
+            with ck.restrict({"R07.1", "R07.2", "R07.5"}):          # R07.5: Cal::new stores exactly the given holidays and the weekdays of the given mask
                 c07m.run(ck, facts, tier)
         finally:
             ck._c06_c07_nested = False
